@@ -688,6 +688,9 @@ func hUnmarshal(std bool, doc string, p interface{}) string {
 	return stdDump(p) + errStr(err)
 }
 
+func stdUnmarshal(doc string, p interface{}) error   { return json.Unmarshal([]byte(doc), p) }
+func sonicUnmarshal(doc string, p interface{}) error { return sonic.UnmarshalString(doc, p) }
+
 func mprobe(name string, mk func() interface{}) histProbe {
 	return histProbe{name, func(std bool) string { return hMarshal(std, mk()) }}
 }
@@ -815,7 +818,7 @@ func init() {
 func histSelect(sel string) []histProbe {
 	var out []histProbe
 	for _, want := range strings.Split(sel, ",") {
-		for _, p := range histProbes {
+		for _, p := range append(append([]histProbe(nil), histProbes...), histExtra...) {
 			if p.name == want || strings.HasPrefix(p.name, want+".") {
 				out = append(out, p)
 			}
